@@ -4,11 +4,14 @@
 
 namespace verif {
 rc::Gen<Case> makeHistGen(const Cfg &cfg);
+rc::Gen<Case> makeEqGen(const Cfg &cfg);
 rc::Gen<Case> makeExtraGen(const std::string &name, const Cfg &cfg, bool &found);
 
 rc::Gen<Case> makeGen(const std::string &name, const Cfg &cfg) {
     if (name == "hist")
         return makeHistGen(cfg);
+    if (name == "eq")
+        return makeEqGen(cfg);
     bool found = false;
     rc::Gen<Case> g = makeExtraGen(name, cfg, found);
     if (found)
